@@ -293,8 +293,16 @@ namespace smt
         case 1:
         {
             auto it = l.vars.cbegin();
-            c_lb += lb(it->first) * it->second + l.known_term;
-            c_ub += ub(it->first) * it->second + l.known_term;
+            if (is_positive_or_zero(it->second))
+            {
+                c_lb += lb(it->first) * it->second + l.known_term;
+                c_ub += ub(it->first) * it->second + l.known_term;
+            }
+            else
+            { // a negative coefficient swaps the roles of the two bounds..
+                c_lb += ub(it->first) * it->second + l.known_term;
+                c_ub += lb(it->first) * it->second + l.known_term;
+            }
             break;
         }
         case 2:
